@@ -4,10 +4,10 @@ EXTENDS MiscX03
 TVals  == {R(-2), Q(-1, 2), R(0), R(1), Q(3, 2)}
 TIVals == {R(-5), R(-1), R(0), R(2), R(6)}
 TabsOver(V) == {Tb(t, 1) : t \in SeqsOver(V, 0..2)}
-TTabs  == TabsOver(TVals) \cup {Tb(<<R(2)>>, 2), Tb(<<Q(1, 2), R(3)>>, 2), Tb(<<Q(-3, 2), R(0), R(2)>>, 1),
+TTabs  == TabsOver(TVals) \cup {Tb(t, 1) : t \in SeqsOver({R(-2), Q(3, 2), R(0)}, {3})} \cup {Tb(<<R(2)>>, 2), Tb(<<Q(1, 2), R(3)>>, 2), Tb(<<Q(-3, 2), R(0), R(2)>>, 1),
                                Tb(<<R(3), R(-1), Q(1, 3)>>, 2), Tb(<<R(1), R(1), R(0), Q(-2, 3)>>, 1),
                                Tb(<<R(3), R(-1), Q(1, 3)>>, 1), Tb(<<R(0), R(0), R(0)>>, 1)}
-TITabs == TabsOver(TIVals) \cup {Tb(<<R(5)>>, 2), Tb(<<R(-5), R(6)>>, 2), Tb(<<R(3), R(0), R(12)>>, 1),
+TITabs == TabsOver(TIVals) \cup {Tb(t, 1) : t \in SeqsOver({R(-5), R(6), R(0)}, {3})} \cup {Tb(<<R(5)>>, 2), Tb(<<R(-5), R(6)>>, 2), Tb(<<R(3), R(0), R(12)>>, 1),
                                  Tb(<<R(7), R(-1), R(2)>>, 2), Tb(<<R(7), R(-1), R(2)>>, 1), Tb(<<R(1), R(2), R(4), R(-8)>>, 1)}
 TNums  == {R(-2), R(-1), R(0), R(1), R(2), R(3), Q(1, 2), Q(-1, 4), R(5)}
 TINums == {R(-3), R(-1), R(0), R(1), R(2), R(4), R(6), R(11)}
